@@ -36,7 +36,8 @@ import numpy as np
 from runner import Infra, TieBroken
 
 ID = "C07"
-LEAN_MODULES = ["PyYetiVerif.Props.C07", "PyYetiVerif.Audit.C07"]
+LEAN_MODULES = ["PyYetiVerif.Props.C07", "PyYetiVerif.Props.C07Decisions", "PyYetiVerif.Props.C07SSRoutine",
+                "PyYetiVerif.Props.C07Truncation", "PyYetiVerif.Audit.C07"]
 AUDIT_FILE = "PyYetiVerif/Audit/C07.lean"
 THEOREMS = [
     "PyYetiVerif.C07." + n
@@ -46,7 +47,15 @@ THEOREMS = [
         "epq1_eq_epq2 aug_pow1 aug_pow0 aug_exp_blocks aug_exp_blocks_order0 half_option_is_selection "
         "half_option integrals_termwise zoh_step foh_step foh_step_closed tustin_roundtrip "
         "tustin_roundtrip_rev tustin_is_bilinear foh_io_equiv zoha_io_equiv zoh_io_equiv zoh_roundtrip "
-        "zoha_roundtrip foh_roundtrip"
+        "zoha_roundtrip foh_roundtrip "
+        # driver logic (Props/C07Decisions.lean)
+        "driver_logic_pinned scaling_exponent_minimal scaling_exponent_is_ceil_log2 expmint_branch_decision "
+        "ss_branch_decision_same squaring_loop_invariant squaring_count geti2_branch_decision geti2_accept_spec "
+        "pow_truncation_rule epq_dispatch_spec half_option_spec ell_constants_are_pade_error "
+        # whole routines c2d / d2c (Props/C07SSRoutine.lean)
+        "d2c_result_is_continuous c2d_attributes c2d_d2c_roundtrip_all_methods "
+        # truncation error, scalar case (Props/C07Truncation.lean)
+        "pade_truncation_scalar_bound squaring_error_growth pade_truncation_matrix_partial"
     ).split()
 ]
 TRUSTED = [
@@ -57,6 +66,11 @@ TRUSTED = [
     "theorems are at the level of power-series coefficients / ring identities: Pade truncation error inside the "
     "theta_m thresholds, floating-point round-off, scipy's _ell / onenormest / LU / eig are measured, not proved",
     "the eig-based logarithm of d2c is an explicit hypothesis (log(exp X) = X) of the round-trip theorems",
+    "decisions: the norm quantities d4..d10 (scipy onenormest, an estimate for n > 2) and the outcome of LAPACK's LU "
+    "(zero pivot warning, I_test) are inputs of the decision model, measured on the implementation's own helper objects; "
+    "scipy's `_ell` constants c_i are stated in the model (proved to be the leading error coefficients of the regenerated "
+    "tables: ell_constants_are_pade_error) and `_ell` itself is compared exactly on every decision case; numpy's allclose "
+    "defaults rtol=1e-5, atol=1e-8 are assumed when the call gives none",
 ]
 RULE = (
     "matrices n = 1..6 from the families dense / stable-symmetric / singular / nilpotent / jordan / upper-triangular / "
@@ -64,7 +78,13 @@ RULE = (
     "log-uniform in [1e-6, 1e3] plus values straddling every branch threshold (nextafter-style scaling at the getEPQ "
     "switch); one case = one (A, h) with every API variant compared on it (expmint, expmint_pow, 4 getEPQ routines "
     "x order x B x half); ss: random stable systems x 4 methods x prewarp; non-trivial = A != 0 and the call "
-    "reaches a Pade/series branch; distinct by the exact bit patterns of (A, h) and the option tuple"
+    "reaches a Pade/series branch; distinct by the exact bit patterns of (A, h) and the option tuple; decisions (exact): "
+    "the same cases plus boundary inputs (norms at theta_m (1 +- 1e-12) and theta_13 2^k (1 +- 1e-12) as 1x1, diagonal, "
+    "rotation and 3x3 matrices; nilpotent; singular with ||A h|| up to 300; nearly singular diag(-1e-k, ...) for k = 3..15; "
+    "positive matrices that exhaust the 200 passes): Pade order, s0, s, number of squarings (bitwise replay of the loop), "
+    "_ell values, _geti2 branch / warning / RuntimeError / pass count, expmint_pow pass count, getEPQ route; a decision whose "
+    "inputs lie within 1e-13 (norms) / 1e-9 (tolerances, alpha of _ell) of a jump is skipped and counted; SSModel: random "
+    "sequences of 1..4 c2d/d2c calls from h in {None, 0, 0.125, 0.5}: identity of the returned object and its h, method, prewarp"
 )
 ASSUMPTIONS = [
     "numeric agreement |impl - model| <= 1e-9 * max|model entry| (the property's 'to round-off'), model error bound < 1e-25 * scale",
@@ -76,11 +96,17 @@ ASSUMPTIONS = [
     "d2c of zoh/zoha/foh: spectrum of A_z off the negative real axis, |Im(lambda) h| < pi, cond(eigenvectors) <= 1e6",
 ]
 PARTIAL = (
-    "complete at the series/ring level; not proved (measured by correspondence and oracle inside the conditioning "
-    "domain): truncation/backward error of the Pade approximants inside the theta_m thresholds (Higham's analysis), "
-    "floating-point round-off, scipy's _ell/onenormest/LU/eig; the I2 fallback for singular A with large ||A h|| "
-    "is the open finding F12, and the direct branch A^-1(E h - A^-1(E - 1)) of _geti2 for a nearly singular A is the "
-    "finding expmint-geti2-direct-near-singular (mechanism stated as theorem I2_direct_amplification)"
+    "complete at the series/ring level and for the driver logic (decisions); truncation error proved for the real scalar "
+    "case only (pade_truncation_scalar_bound: |r_m(x) - e^x| <= eps_m e^x for |x| <= theta_m with eps_m <= 2^-53/64, "
+    "0.3 2^-53, 1.6 2^-53, 6 2^-53, 2^-53/15 for m = 3, 5, 7, 9, 13, hence eigenvalue-wise for real symmetric A): the "
+    "general matrix statement (non-normal A, 1-norm; Higham's backward-error analysis with ||q_m(A)^-1||) is NOT proved "
+    "(pade_truncation_matrix_partial keeps it visible), nor are the truncation errors of the phi1 / phi2 approximants "
+    "(I1, I2 tables: order conditions only); not proved, measured by correspondence and oracle inside the conditioning "
+    "domain: floating-point round-off, scipy's onenormest / LU / eig (the decisions are proved and compared exactly GIVEN "
+    "the measured norm quantities and LU outcome); the I2 fallback for singular A with large ||A h|| is the open finding "
+    "F12 and the direct branch A^-1(E h - A^-1(E - 1)) of _geti2 for a nearly singular A is the open finding F37 "
+    "(mechanism: I2_direct_amplification; the exact repair, carrying I2 through the squaring loop, is proved exact in "
+    "squaring_loop_invariant and handed over as corpus/c07_geti2_doubling_candidate_fix.diff)"
 )
 MANIFEST = {
     "level_text": "Proof (Lean 4, kernel-checked, standard axioms only). On the Pade tables machine-translated from "
@@ -97,10 +123,25 @@ MANIFEST = {
     "sampled recurrences (induction over time), zoh/zoha/foh round trips given log(exp X) = X. The floating-point "
     "routines are tied to this by numeric correspondence against an exact-rational Lean reference with a rigorous error "
     "bound, over a norm sweep that is required to hit every Pade order, the scaling loop, all three I2 formulas and both "
-    "sides of the getEPQ switch.",
+    "sides of the getEPQ switch. DRIVER LOGIC (third phase), on constants and statement texts regenerated from the source: "
+    "the Pade order / scaling decision of expmint and _expm_SS stated outright (expmint_branch_decision), s0 is the least s "
+    "with eta_5 <= 4.25 2^s and equals max(ceil(log2(eta_5/4.25)), 0) over the reals (scaling_exponent_minimal / "
+    "_is_ceil_log2), s squarings bring the base step h 2^-s back to h with (E, I1) - and the candidate I2 recurrence - exact "
+    "at every stage (squaring_loop_invariant, formal power series), the _geti2 branch / warning / RuntimeError logic and "
+    "its allclose acceptance (geti2_branch_decision, geti2_accept_spec), the truncation rule of the power series "
+    "(pow_truncation_rule), the getEPQ switch and half/B handling on both routes (epq_dispatch_spec, half_option_spec), "
+    "scipy's _ell constants = leading error coefficients of the regenerated tables. SSModel.c2d / d2c as whole routines with "
+    "the h / method / prewarp attributes: round trip for all four methods on the exact domain h = None, d2c never returns a "
+    "sample time, c2d of a discrete model returns itself. TRUNCATION: for real x with |x| <= theta_m the regenerated "
+    "approximant satisfies |r_m(x) - e^x| <= eps_m e^x, eps_m <= (1/64, 0.3, 1.6, 6, 1/15) 2^-53 for m = 3, 5, 7, 9, 13 "
+    "(Taylor remainder from Mathlib + exact polynomial identity + sign structure q(x) = p(-x)). The decisions are tied by an "
+    "EXACT correspondence (Pade order, s, number of squarings by bitwise replay, _ell, _geti2 branch and pass count, "
+    "expmint_pow pass count, getEPQ route, SSModel attribute sequences) on generated and boundary inputs.",
     "level_note": "Trusted: Lean kernel; propext, Classical.choice, Quot.sound; the translator and the Python harness; "
     "scipy's pade7/pade9 tables as constants (checked against execution). Not proved, measured to 1e-9 inside the stated "
-    "conditioning domain: Pade truncation error within theta_m, round-off, _ell, LU, eig-based log. Two accuracy "
+    "conditioning domain: Pade truncation error for non-symmetric matrices (scalar real case proved) and of the I1 / I2 "
+    "approximants, round-off, onenormest, LU, eig-based log; the decision theorems take the measured norm quantities and the "
+    "LU outcome as inputs. Two accuracy "
     "findings about I2 outside that domain are reported by the oracle and excluded (skipped and counted) from the "
     "correspondence: F12 (singular A, large ||A h||, power-series fallback) and expmint-geti2-direct-near-singular "
     "(regular but nearly singular A h in the direct branch: error ~ eps ||(A h)^-1||^2).",
@@ -1068,6 +1109,395 @@ def _sys_in(s):
     return {k: np.asarray(s[k]).tolist() for k in "ABCD"} | {"h": s["h"], "fam": s.get("fam")}
 
 
+# ---- decisions: exact correspondence of the driver logic -------------------------------------------
+
+
+class _CountArr(np.ndarray):
+    """ndarray whose `.dot` calls are counted: `term = term.dot(H.A) / j` of the two power-series loops runs once per pass"""
+    count = 0
+
+    def dot(self, other, out=None):
+        _CountArr.count += 1
+        return np.asarray(self).dot(np.asarray(other)).view(_CountArr)
+
+
+def _decision_cases(ctx):
+    """boundary inputs of every decision: norms at theta_m (1 +- 1e-12), theta_13 2^k (1 +- 1e-12), nilpotent,
+    singular, nearly singular (the window of the allclose acceptance test)"""
+    out = []
+    th = [1.495585217958292e-002, 2.539398330063230e-001, 9.504178996162932e-001, 2.097847961257068e000,
+          4.25, 8.5, 17.0, 34.0, 272.0]
+    for t in th:
+        for f in (1 - 1e-12, 1 + 1e-12):
+            x = t * f
+            out.append({"A": np.array([[-x]]), "h": 1.0, "fam": "boundary"})
+            out.append({"A": np.array([[-x, 0.0], [0.0, -x / 3]]), "h": 1.0, "fam": "boundary"})
+            out.append({"A": np.array([[0.0, x], [-x, 0.0]]) * 4.0, "h": 0.25, "fam": "boundary"})
+            out.append({"A": np.array([[-x / 2, x / 2, 0.0], [0.0, -x / 4, x / 8], [x / 2, 0.0, -x]]), "h": 1.0,
+                        "fam": "boundary"})
+    for x in (0.5, 3.0, 100.0, 1e6):
+        out.append({"A": np.array([[0.0, x], [0.0, 0.0]]), "h": 1.0, "fam": "nilpotent"})
+        out.append({"A": np.array([[0.0, x, 1.0], [0.0, 0.0, x], [0.0, 0.0, 0.0]]), "h": 0.5, "fam": "nilpotent"})
+    for nu in (2.5, 3.6, 8.0, 18.0, 40.0, 90.0, 150.0, 300.0):
+        A = np.array([[0.0, 1.0], [0.0, -2.0]])
+        out.append({"A": A * (nu / 3.0), "h": 1.0, "fam": "singular"})
+        A3 = np.array([[1.0, 2.0, 3.0], [4.0, 5.0, 6.0], [7.0, 8.0, 9.0]])
+        if nu <= 40:
+            out.append({"A": A3 * (nu / 18.0), "h": 1.0, "fam": "singular"})
+    # `_ell(2**-s0 A, 13) > 0`: non-normal matrices whose powers are much smaller than the powers of |A|
+    for x in (4.0, 16.0, 40.0):
+        out.append({"A": np.array([[x, -x], [x, -x]]) + np.diag([-0.5, -0.25]), "h": 1.0, "fam": "nonnormal"})
+        out.append({"A": np.array([[x, -x, 0.0], [x, -x, 1.0], [0.0, 0.5, -1.0]]), "h": 1.0, "fam": "nonnormal"})
+    # positive matrices: no cancellation in the power series, the 200-pass limit is reached by growth alone
+    out.append({"A": np.array([[120.0]]), "h": 1.0, "fam": "positive"})
+    out.append({"A": np.array([[260.0, 20.0], [20.0, 260.0]]), "h": 0.5, "fam": "positive"})
+    out.append({"A": np.array([[50.0, 10.0], [10.0, 50.0]]), "h": 1.0, "fam": "positive"})
+    U = np.array([[1.0, 1.0], [0.0, 1.0]])
+    for k in range(3, 16):
+        D = np.diag([-10.0 ** -k, -3.0])
+        out.append({"A": D, "h": 1.0, "fam": "near-singular"})
+        out.append({"A": U @ D @ np.linalg.inv(U), "h": 1.0, "fam": "near-singular"})
+        out.append({"A": np.diag([-10.0 ** -k, -2.0, -5.0]) * 2.0, "h": 0.5, "fam": "near-singular"})
+    for c in out:
+        c["tags"] = {}
+        c["nu"] = c["h"] * float(np.linalg.norm(c["A"], 1))
+    return out
+
+
+def _squarings(E0, I0, E, I, smax):
+    """all j <= smax with (E, I) bitwise equal to j passes of `I += I.dot(E); E = E.dot(E)` from (E0, I0)
+    (`E.dot(I)` is accepted as well: the same product in exact arithmetic, functions of one matrix commute)"""
+    hits = set()
+    with np.errstate(all="ignore"):
+        for left in (False, True):
+            Ej = np.array(E0, float)
+            Ij = None if I0 is None else np.array(I0, float)
+            for j in range(smax + 1):
+                if np.array_equal(Ej, E, equal_nan=True) and (Ij is None or np.array_equal(Ij, I, equal_nan=True)):
+                    hits.add(j)
+                if Ij is not None:
+                    Ij = Ij + (Ej.dot(Ij) if left else Ij.dot(Ej))
+                Ej = Ej.dot(Ej)
+            if I0 is None:
+                break
+    return sorted(hits)
+
+
+def _three(rep):
+    parts = [x.strip() for x in rep.split(" | ")]
+    if len(parts) != 3:
+        raise Infra("driver C07: bad decision reply %r" % rep[:80])
+    return parts
+
+
+def _stream_decisions(ctx, cases):
+    import scipy.linalg as la
+    from pyyeti import expmint as em
+    from pyyeti import ssmodel
+
+    mf = em.mf
+    obs = []          # (kind, case, impl-observation dict)
+    reqs = []
+    log = []
+    saved = []
+
+    def wrap(cls, name, m, key):
+        orig = getattr(cls, name)
+
+        def f(self_, *a, **k):
+            r = orig(self_, *a, **k)
+            log.append((key, m, int(a[0]) if m == 13 else 0, r))
+            return r
+
+        saved.append((cls, name, orig))
+        setattr(cls, name, f)
+
+    for nm, m in (("pade3_i", 3), ("pade5_i", 5), ("pade7_i", 7), ("pade9_i", 9), ("pade13_scaled_i", 13)):
+        wrap(em._ExpmIntPadeHelper, nm, m, "int")
+    for nm, m in (("pade3", 3), ("pade5", 5), ("pade7", 7), ("pade9", 9), ("pade13_scaled", 13)):
+        wrap(em._ExpmPadeHelper_SS, nm, m, "ss")
+    g_orig = em._geti2
+    ss_orig = em._expm_SS
+    r1, r2 = em.getEPQ1, em.getEPQ2
+    glog, sslog, rlog = [], [], []
+
+    def geti2(H, E, I, h, pade):
+        ent = {"H": H, "E": np.array(E), "I": np.array(I), "h": h, "pade": pade, "warned": False, "raised": False}
+        glog.append(ent)
+        with warnings.catch_warnings(record=True) as w:
+            warnings.simplefilter("always")
+            try:
+                return g_orig(H, E, I, h, pade)
+            except RuntimeError:
+                ent["raised"] = True
+                raise
+            finally:
+                ent["warned"] = any("power series" in str(x.message) for x in w)
+
+    def expm_ss(M, ssA, order):
+        X = ss_orig(M, ssA, order)
+        sslog.append((np.array(M), np.array(ssA), order, np.array(X)))
+        return X
+
+    em._geti2 = geti2
+    em._expm_SS = expm_ss
+    em.getEPQ1 = lambda *a, **k: (rlog.append(1), r1(*a, **k))[1]
+    em.getEPQ2 = lambda *a, **k: (rlog.append(2), r2(*a, **k))[1]
+    try:
+        for c in cases:
+            A, h = np.asarray(c["A"], float), float(c["h"])
+            n = A.shape[0]
+            if n > 5 and c.get("fam") not in ("boundary",):
+                continue
+            # ---- expmint --------------------------------------------------------------------------------
+            del log[:], glog[:]
+            np.random.seed(0)
+            with warnings.catch_warnings(), np.errstate(all="ignore"):
+                warnings.simplefilter("ignore")
+                try:
+                    res = em.expmint(A, h, True)
+                    exc = None
+                except RuntimeError as e:
+                    res, exc = None, e
+            calls = [x for x in log if x[0] == "int"]
+            if len(calls) != 1:
+                ctx.disagree("decision-expmint", _case_in(c), "%d pade methods called" % len(calls), "exactly one")
+                continue
+            _, m, s, (U, V, P, Q) = calls[0]
+            np.random.seed(0)
+            with np.errstate(all="ignore"):
+                H = em._ExpmIntPadeHelper(A * h)
+                etas = [H.d4_loose, H.d6_loose, H.d4_tight, H.d6_tight, H.d8_loose, H.d10_loose]
+            X = np.asarray(H.A, float)
+            if not (np.all(np.isfinite(etas)) and np.all(np.isfinite(X))):
+                ctx.skip("decision: non-finite norm quantities")
+                continue
+            structure = mf.UPPER_TRIANGULAR if mf._is_upper_triangular(A) else None
+            sq = None
+            if res is not None or glog:
+                Efin, Ifin = (res[0], res[1]) if res is not None else (glog[0]["E"], glog[0]["I"])
+                with warnings.catch_warnings(), np.errstate(all="ignore"):
+                    warnings.simplefilter("ignore")
+                    E0 = mf._solve_P_Q(U, V, structure=structure)
+                    I0 = em._solve_P_Q_2(P, Q, structure=structure)
+                sq = _squarings(E0, I0, Efin, Ifin, s + 2)
+            ells = []
+            with np.errstate(all="ignore"):
+                for mm in (3, 5, 7, 9):
+                    ells.append(int(mf._ell(X, mm)))
+            obs.append(("int", c, {"m": m, "s": s, "sq": sq, "ells": ells, "X": X}))
+            reqs.append("dec int %d %s %s" % (n, " ".join(_rat(x) for x in etas), _mat(X)))
+            # ---- _geti2 ---------------------------------------------------------------------------------
+            if glog and m == 13 and np.all(np.isfinite(glog[0]["E"])) and np.all(np.isfinite(glog[0]["I"])):
+                gl = glog[0]
+                E, I = gl["E"], gl["I"]
+                I_test = None
+                with warnings.catch_warnings(), np.errstate(all="warn"):
+                    warnings.simplefilter("error", RuntimeWarning)
+                    try:
+                        lup = la.lu_factor(X)
+                        I_test = la.lu_solve(lup, h * (E - np.eye(n)))
+                        if np.allclose(I_test, I):
+                            la.lu_solve(lup, h * (E * h - I_test))
+                        luok = True
+                    except RuntimeWarning:
+                        luok = False
+                if I_test is None:
+                    I_test = np.zeros((n, n))
+                if not np.all(np.isfinite(I_test)):
+                    ctx.skip("decision: non-finite I_test in the acceptance test")
+                else:
+                    if gl["raised"]:
+                        impl = "maxloops"
+                    elif gl["warned"]:
+                        _CountArr.count = 0
+                        H2 = em._ExpmIntPadeHelper(X.view(_CountArr))
+                        with warnings.catch_warnings():
+                            warnings.simplefilter("ignore")
+                            g_orig(H2, E, I, h, 13)
+                        impl = "series:%d" % (1 + _CountArr.count)
+                    else:
+                        impl = "direct"
+                    obs.append(("geti2", c, {"impl": impl, "luok": luok}))
+                    reqs.append("geti2 13 %d %d %s %s %s %s" % (1 if luok else 0, n, _rat(np.abs(E).max()), _mat(X),
+                                                               _mat(I_test), _mat(I)))
+            elif glog and m <= 9:
+                gl = glog[0]
+                obs.append(("geti2", c, {"impl": "pade%d" % m if not gl["warned"] else "series", "luok": True}))
+                z = np.zeros((n, n))
+                reqs.append("geti2 %d 1 %d 1 %s %s %s" % (gl["pade"], n, _mat(X), _mat(z), _mat(z)))
+            # ---- expmint_pow ----------------------------------------------------------------------------
+            # the loop of expmint_pow compares the term with tol * max|E| of the *running* sum: where that sum is
+            # dominated by the round-off of cancelled terms (eps * max|term| >~ max|E|) the pass count is a property of
+            # the rounding errors, not of the rule: skipped and counted
+            with np.errstate(all="ignore"):
+                T = A * h
+                term, Erun, mx, worst = T.copy(), np.eye(n), 1.0, 0.0
+                for jj in range(2, 201):
+                    Erun = Erun + term
+                    mx = max(mx, float(np.abs(term).max()))
+                    worst = max(worst, mx / max(float(np.abs(Erun).max()), 1e-300))
+                    term = term.dot(T) / jj
+                    if not np.isfinite(mx) or float(np.abs(term).max()) < 1e-18 * float(np.abs(Erun).max()):
+                        break
+            if not (np.isfinite(mx) and 2.3e-16 * worst <= 1e-10):
+                ctx.skip("expmint_pow pass count: running sum dominated by round-off of cancelled terms")
+            else:
+                _CountArr.count = 0
+                with warnings.catch_warnings(), np.errstate(all="ignore"):
+                    warnings.simplefilter("ignore")
+                    try:
+                        em.expmint_pow(np.array(A).view(_CountArr), h)
+                        jj = 1 + _CountArr.count
+                    except RuntimeError:
+                        jj = 1 + _CountArr.count
+                        if jj != 200:
+                            ctx.disagree("decision-pow", _case_in(c), "RuntimeError after %d passes" % jj, "only at j = 200")
+                obs.append(("pow", c, {"j": jj}))
+                reqs.append("powloops %d %s" % (n, _mat(A * h)))
+            # ---- getEPQ route and the _expm_SS chain ----------------------------------------------------
+            del rlog[:], sslog[:], log[:]
+            with warnings.catch_warnings(), np.errstate(all="ignore"):
+                warnings.simplefilter("ignore")
+                try:
+                    em.getEPQ(A, h, order=0)
+                except Exception:  # noqa: BLE001 - reported by the numeric streams
+                    pass
+            norm1 = h * np.linalg.norm(A, 1)
+            if np.isfinite(norm1):
+                obs.append(("route", c, {"route": list(rlog[:1]), "norm1": float(norm1)}))
+                reqs.append("route %s" % _rat(norm1))
+            for order in (0, 1):
+                del sslog[:], log[:]
+                with warnings.catch_warnings(), np.errstate(all="ignore"):
+                    warnings.simplefilter("ignore")
+                    try:
+                        r2(A, h, order=order, half=(n % 2 == 0 and order == 1))
+                    except Exception:  # noqa: BLE001
+                        continue
+                calls = [x for x in log if x[0] == "ss"]
+                if len(calls) != 1 or len(sslog) != 1:
+                    ctx.disagree("decision-ss", _case_in(c), "%d pade methods called" % len(calls), "exactly one")
+                    continue
+                _, m, s, (U, V) = calls[0]
+                M, ssA, _, Xfin = sslog[0]
+                with np.errstate(all="ignore"):
+                    hh = em._ExpmPadeHelper_SS(M, ssA, order)
+                    etas = [hh.d4_loose, hh.d6_loose, hh.d4_tight, hh.d6_tight, hh.d8_loose, hh.d10_loose]
+                if not (np.all(np.isfinite(etas)) and np.all(np.isfinite(M))):
+                    ctx.skip("decision: non-finite norm quantities")
+                    continue
+                with warnings.catch_warnings(), np.errstate(all="ignore"):
+                    warnings.simplefilter("ignore")
+                    X0 = mf._solve_P_Q(U, V, structure=None)
+                obs.append(("ss", c, {"m": m, "s": s, "sq": _squarings(X0, None, Xfin, None, s + 2), "order": order}))
+                reqs.append("dec ss %d %s %s" % (M.shape[0], " ".join(_rat(x) for x in etas), _mat(M)))
+    finally:
+        em._geti2, em._expm_SS, em.getEPQ1, em.getEPQ2 = g_orig, ss_orig, r1, r2
+        for cls, name, orig in reversed(saved):
+            setattr(cls, name, orig)
+    reps = _ask(ctx, reqs)
+    for (kind, c, o), rep in zip(obs, reps):
+        inp = dict(_case_in(c), what=kind)
+        ctx.case(("decision", kind, np.asarray(c["A"]).tobytes(), c["h"], o.get("order")), branch="dec:" + kind)
+        if kind in ("int", "ss"):
+            lo, mid, hi = (_three(rep)[i].split() for i in range(3))
+            if not (lo[:3] == mid[:3] == hi[:3]):
+                ctx.skip("decision within 1e-13 of a threshold / 1e-9 of a jump of _ell (float log2, pow): not compared")
+                ctx.count("dec:boundary-skip")
+                continue
+            m, s0, s = (int(x) for x in mid[:3])
+            ctx.count("dec:%s:m%d" % (kind, m))
+            if m == 13:
+                ctx.count("dec:%s:s%s" % (kind, ">0" if s > 0 else "=0"))
+                if s > s0:
+                    ctx.count("dec:ell13>0")
+            if (o["m"], o["s"]) != (m, s):
+                ctx.disagree("decision-%s-order-scaling" % kind, inp, "pade%d s=%d" % (o["m"], o["s"]),
+                             "pade%d s=%d (s0=%d)" % (m, s, s0))
+            if o["sq"] is not None and s not in o["sq"]:
+                ctx.disagree("decision-%s-squarings" % kind, inp, "result equals %s squarings of r_m" % (o["sq"],),
+                             "%d squarings" % s)
+            if kind == "int" and lo[3:7] == mid[3:7] == hi[3:7] and [int(x) for x in mid[3:7]] != o["ells"]:
+                ctx.disagree("decision-ell", inp, o["ells"], mid[3:7])
+        elif kind == "geti2":
+            lo, mid, hi = _three(rep)
+            if not (lo == mid == hi):
+                ctx.skip("_geti2 decision within 1e-9 of the acceptance / truncation tolerance: not compared")
+                ctx.count("dec:boundary-skip")
+                continue
+            ctx.count("geti2dec:" + mid.split(":")[0])
+            if mid.startswith("series") and o["luok"]:
+                ctx.count("geti2dec:rejected-by-allclose")
+            if o["impl"] != mid:
+                ctx.disagree("decision-geti2", inp, o["impl"], mid)
+        elif kind == "pow":
+            js = [int(x) for x in rep.split()]
+            if len(set(js)) != 1:
+                ctx.skip("power-series truncation within 1e-9 of the tolerance: not compared")
+                ctx.count("dec:boundary-skip")
+                continue
+            ctx.count("powdec:%s" % ("maxloops" if js[1] >= 200 else "converged"))
+            if o["j"] != js[1]:
+                ctx.disagree("decision-pow-terms", inp, "%d terms" % o["j"], "%d terms" % js[1])
+        elif kind == "route":
+            ctx.count("routedec:%s" % rep.strip())
+            if o["route"] != [int(rep)]:
+                ctx.disagree("decision-getEPQ-route", dict(inp, norm1=o["norm1"]), o["route"], int(rep))
+    # ---- SSModel attribute / call-sequence logic ----------------------------------------------------------
+    rng = ctx.np_rng(21)
+    seqs = []
+    for _ in range(ctx.pick(60, 400)):
+        h0 = [None, None, None, 0, 0.0, 0.125, 0.5][int(rng.integers(0, 7))]
+        ops = []
+        for _ in range(int(rng.integers(1, 5))):
+            meth = ["zoh", "zoha", "foh", "tustin"][int(rng.integers(0, 4))]
+            pw = [0, None, 1.5][int(rng.integers(0, 3))] if meth == "tustin" else 0
+            if rng.random() < 0.5:
+                ops.append(("c2d", [0.25, 0.5, 0.125][int(rng.integers(0, 3))], meth, pw))
+            else:
+                ops.append(("d2c", meth, pw))
+        seqs.append((h0, ops))
+
+    def fo(x):
+        return "none" if x is None else _rat(x)
+
+    sreq = []
+    simpl = []
+    for h0, ops in seqs:
+        cur = ssmodel.SSModel([[-1.0]], [[1.0]], [[1.0]], [[0.0]], h=h0)
+        outs = []
+        words = []
+        ok = True
+        for op in ops:
+            with warnings.catch_warnings(), np.errstate(all="ignore"):
+                warnings.simplefilter("ignore")
+                try:
+                    if op[0] == "c2d":
+                        nxt = cur.c2d(op[1], method=op[2], prewarp=op[3])
+                        words += ["c2d", _rat(op[1]), op[2], fo(op[3])]
+                    else:
+                        nxt = cur.d2c(method=op[1], prewarp=op[2])
+                        words += ["d2c", op[1], fo(op[2])]
+                except Exception:  # noqa: BLE001 - h = 0 treated as a sample time: division by zero in la.solve
+                    ok = False
+                    break
+            outs.append("self" if nxt is cur else "new %s %s %s" % (fo(nxt.h), nxt.method or "none", fo(nxt.prewarp)))
+            cur = nxt
+        nops = len(outs)
+        if nops == 0:
+            continue
+        sreq.append("ssattr %s %d %s" % (fo(h0), nops, " ".join(words[: sum(4 if o[0] == "c2d" else 3 for o in ops[:nops])])))
+        simpl.append(((h0, ops[:nops], ok), outs))
+    for (meta, outs), rep in zip(simpl, _ask(ctx, sreq, parallel=1)):
+        ctx.case(("ssattr", repr(meta)), branch="ssattr")
+        want = [x.strip() for x in rep.split(" | ")]
+        for o in outs:
+            ctx.count("ssattr:" + ("self" if o == "self" else "new"))
+        if want != outs:
+            ctx.disagree("decision-ssmodel-attributes", {"h0": meta[0], "ops": [list(map(str, o)) for o in meta[1]]}, outs, want)
+
+
 # ---- generated tables vs executed methods -------------------------------------------------------
 
 
@@ -1177,6 +1607,10 @@ BRANCHES = (
      "getEPQ/route:getEPQ1", "getEPQ/route:getEPQ2", "switch:below", "switch:at", "switch:above",
      "structure:upper_triangular", "pow:compared", "error:odd-half", "error:nonsquare", "error:order",
      "model:route2-evaluated", "tables"]
+    + ["dec:int:m%d" % m for m in (3, 5, 7, 9, 13)] + ["dec:ss:m%d" % m for m in (3, 5, 7, 9, 13)]
+    + ["dec:int:s>0", "dec:int:s=0", "dec:ss:s>0", "dec:ell13>0", "geti2dec:direct", "geti2dec:series", "geti2dec:maxloops",
+       "geti2dec:pade9", "geti2dec:rejected-by-allclose", "powdec:converged", "powdec:maxloops", "routedec:1", "routedec:2",
+       "ssattr:self", "ssattr:new"]
     + ["fam:" + f for f in FAMILIES]
     + ["ss:c2d:" + m for m in ("zoh", "zoha", "foh")] + ["ss:d2c-attempted:" + m for m in ("zoh", "zoha", "foh")]
     + ["ss:tustin:0", "ss:tustin:None", "ss:tustin:prewarp", "ss:sampled-response:zoh", "ss:sampled-response:foh",
@@ -1199,6 +1633,7 @@ def correspondence(ctx):
     tm["guards"] = time.time() - t0
     for nm, fn in (("tables", lambda: _stream_tables(ctx)), ("expmint", lambda: _stream_expmint(ctx, cases, refs, gs)),
                    ("epq", lambda: _stream_epq(ctx, cases, refs, gs)),
+                   ("decisions", lambda: _stream_decisions(ctx, _decision_cases(ctx) + cases[: ctx.pick(260, 3000)])),
                    ("ss", lambda: _stream_ss(ctx, gen_systems(ctx, ctx.pick(60, 1500))))):
         t0 = time.time()
         fn()
